@@ -6,17 +6,18 @@ SPEC = {
     'coq_check': 'C07_check',
     'parts': [
         {'pkg': 'execute', 'src': 'harness/execute/c07_test.go', 'test': 'TestVerif_C07', 'fakes': True,
-         'sinks': {'C07_merge': 'c07_judge'}, 'n': {'quick': 690, 'thorough': 23000}},
+         'sinks': {'C07_merge': 'c07_judge'}, 'n': {'quick': 780, 'thorough': 26000}},
     ],
     'known': {'1': 'F13d', '2': 'F13e'},
     'rule': 'DONs of 4..10 oracles (ids from 0..15), 1..3 source chains + destination, per-chain f in 1..3 (class weird-f: '
             '0, -1, -2, destination missing), F in 1..3 (class below-F: above the number of observations); an agreed world '
             '(1..3 commit reports per chain, 1..3 messages each, 0..2 token slots, costly ids, sender nonces) where every '
             'item is reported by thr-1, thr, thr+1, all or a random number of oracles; then 1, 2, thr-1 or thr colluding '
-            'Byzantine oracles apply one of 20 shapes (repeated / split / overlapping / re-executed commit reports, a message '
+            'Byzantine oracles apply one of 23 shapes (repeated - adjacent and interleaved - / split / overlapping / re-executed commit reports, a message '
             'under extra sequence-number keys or under another chain key, variant messages, messages of a chain the oracle '
-            'may not read, repeated and foreign costly ids, variant and re-chained nonces, variant / missing / extra / re-keyed '
-            'token slots, unknown chain keys). Every observation goes through JSON, Plugin.ValidateObservation and, if '
+            'may not read, costly ids repeated adjacently and with other ids in between ([A,A], [A,B,A], [A,B,B,A], spread over several ids), '
+            'foreign costly ids, variant and re-chained nonces, variant / missing / extra / re-keyed token slots, token data / nonces / costly '
+            'flags from oracles without the role for them, unknown chain keys). Every observation goes through JSON, Plugin.ValidateObservation and, if '
             'accepted, getConsensusObservation. non-trivial = merge succeeded on >= 2 accepted observations; distinct by full input',
     'trusted': ['item identity = the implementation\'s id function (sha3 of "%v"; TokenDataHash): the harness interns the same '
                 'rendering, the other item fields are functions of it',
